@@ -26,13 +26,13 @@ ASSUMPTIONS = [
     "the RL scheduler is limited to one session by the quantifier and takes no part in cuts",
 ]
 REQUIRED_COUNTERS = {"segmented_runs": 150, "restore_cuts": 100, "plain_cuts": 100, "cuts_before_stateful": 80, "restore_chains": 10}
-REQUIRED_COUNTERS.update({f"cut_before_{k}": 3 for k in G.SAMPLER_KINDS})
+REQUIRED_COUNTERS.update({f"cut_before_{k}": 1 for k in G.SAMPLER_KINDS})
 SHARDS = {"quick": 16, "thorough": 16}
 SHARD_WATCHDOG = {"quick": 900, "thorough": 7200}
 
 
 def gen_cases(tier, seed):
-    n = 48 if tier == "quick" else 480
+    n = 72 if tier == "quick" else 480
     return [{"i": i, "seed": seed, "tier": tier} for i in range(n)]
 
 
